@@ -1,6 +1,8 @@
 package main
 
-// LinkedList against a slice model (single goroutine).
+// LinkedList against a slice model (single goroutine). A program runs on a small pool of
+// lists (every operation picks one); after every operation ALL lists and all arrays returned
+// by ToArray earlier are compared with their models: distinct lists are independent.
 
 import (
 	"fmt"
@@ -18,12 +20,28 @@ func prevOf(e *list.LinkedListEntity) *list.LinkedListEntity {
 	return *(**list.LinkedListEntity)(unsafe.Pointer(f.UnsafeAddr()))
 }
 
+type lnk struct {
+	id int
+	l  *list.LinkedList
+	m  []interface{}
+}
+
 type linkedRun struct {
-	c    *vlib.Ctx
-	l    *list.LinkedList
-	m    []interface{}
-	ops  []string
-	dead bool
+	c     *vlib.Ctx
+	pool  []*lnk
+	t     *lnk // target of the current operation
+	helds []*heldArr
+	ops   []string
+	dead  bool
+	// while the lists that an operation did not touch are verified: the key of a difference
+	foreign, foreignKind string
+	noText               bool // skip the textual form (verification of untouched lists)
+}
+
+// heldArr: an array returned by ToArray earlier; it keeps its contents.
+type heldArr struct {
+	from      int
+	arr, want []interface{}
 }
 
 func (s *linkedRun) logf(format string, a ...interface{}) {
@@ -31,32 +49,47 @@ func (s *linkedRun) logf(format string, a ...interface{}) {
 }
 
 func (s *linkedRun) fail(method, kindStr, msg string) {
+	if s.foreign != "" {
+		// s.t is (temporarily) a list that the operation did not touch
+		method, kindStr = s.foreign, s.foreignKind
+		msg = fmt.Sprintf("the list K%d, which this operation does not touch, changed: %s", s.t.id, msg)
+	}
 	var actual []interface{}
-	vlib.Catch(func() { actual = s.l.ToArray() })
+	vlib.Catch(func() { actual = s.t.l.ToArray() })
 	if len(actual) > 100 {
 		actual = actual[:100]
 	}
-	m := s.m
+	m := s.t.m
 	if len(m) > 100 {
 		m = m[:100]
 	}
-	s.c.Fail("LinkedList."+method+":"+kindStr, msg, map[string]interface{}{
-		"ops": s.ops, "model": fmt.Sprint(m), "actual": fmt.Sprint(actual), "actual_size": s.l.Size()})
+	others := map[string]string{}
+	for _, p := range s.pool {
+		if p != s.t {
+			om := p.m
+			if len(om) > 100 {
+				om = om[:100]
+			}
+			others[fmt.Sprintf("K%d", p.id)] = fmt.Sprint(om)
+		}
+	}
+	s.c.Fail("LinkedList."+method+":"+kindStr, msg, map[string]interface{}{"list": fmt.Sprintf("K%d", s.t.id),
+		"ops": s.ops, "model": fmt.Sprint(m), "actual": fmt.Sprint(actual), "actual_size": s.t.l.Size(), "other_models": others})
 }
 
 // nodeAt walks k steps from the first node, checking the values passed on the way.
 func (s *linkedRun) nodeAt(k int) *list.LinkedListEntity {
-	e := s.l.GetFirst()
+	e := s.t.l.GetFirst()
 	for j := 0; j < k && e != nil; j++ {
-		e = s.l.GetNext(e)
+		e = s.t.l.GetNext(e)
 	}
 	if e == nil {
-		s.fail("GetNext", "wrong-size", fmt.Sprintf("forward walk ended before position %d of %d", k, len(s.m)))
+		s.fail("GetNext", "wrong-size", fmt.Sprintf("forward walk ended before position %d of %d", k, len(s.t.m)))
 		s.dead = true
 		return nil
 	}
-	if e.Value != s.m[k] {
-		s.fail("GetNext", "wrong-value", fmt.Sprintf("node at position %d holds %v, model says %v", k, e.Value, s.m[k]))
+	if e.Value != s.t.m[k] {
+		s.fail("GetNext", "wrong-value", fmt.Sprintf("node at position %d holds %v, model says %v", k, e.Value, s.t.m[k]))
 		s.dead = true
 		return nil
 	}
@@ -65,24 +98,24 @@ func (s *linkedRun) nodeAt(k int) *list.LinkedListEntity {
 
 // verify checks size, ToArray, the forward chain, the backward chain and both ends.
 func (s *linkedRun) verify(after string, full bool) bool {
-	n := len(s.m)
-	if sz := s.l.Size(); sz != n {
+	n := len(s.t.m)
+	if sz := s.t.l.Size(); sz != n {
 		s.fail(after, "wrong-size", fmt.Sprintf("after %s: Size()=%d, model has %d", after, sz, n))
 		return false
 	}
-	f, la := s.l.GetFirst(), s.l.GetLast()
+	f, la := s.t.l.GetFirst(), s.t.l.GetLast()
 	if n == 0 {
 		if f != nil || la != nil {
 			s.fail(after, "wrong-value", fmt.Sprintf("after %s: empty list but GetFirst/GetLast are not nil", after))
 			return false
 		}
 	} else {
-		if f == nil || f.Value != s.m[0] {
-			s.fail("GetFirst", "wrong-value", fmt.Sprintf("after %s: GetFirst is %v, model says %v", after, entVal(f), s.m[0]))
+		if f == nil || f.Value != s.t.m[0] {
+			s.fail("GetFirst", "wrong-value", fmt.Sprintf("after %s: GetFirst is %v, model says %v", after, entVal(f), s.t.m[0]))
 			return false
 		}
-		if la == nil || la.Value != s.m[n-1] {
-			s.fail("GetLast", "wrong-value", fmt.Sprintf("after %s: GetLast is %v, model says %v", after, entVal(la), s.m[n-1]))
+		if la == nil || la.Value != s.t.m[n-1] {
+			s.fail("GetLast", "wrong-value", fmt.Sprintf("after %s: GetLast is %v, model says %v", after, entVal(la), s.t.m[n-1]))
 			return false
 		}
 	}
@@ -90,7 +123,7 @@ func (s *linkedRun) verify(after string, full bool) bool {
 		return true
 	}
 	var arr []interface{}
-	if p := vlib.Catch(func() { arr = s.l.ToArray() }); p != nil {
+	if p := vlib.Catch(func() { arr = s.t.l.ToArray() }); p != nil {
 		s.fail("ToArray", "panic", fmt.Sprintf("ToArray panicked after %s: %v", after, p))
 		return false
 	}
@@ -99,19 +132,19 @@ func (s *linkedRun) verify(after string, full bool) bool {
 		return false
 	}
 	for i := range arr {
-		if arr[i] != s.m[i] {
-			s.fail(after, "wrong-value", fmt.Sprintf("after %s: ToArray()[%d]=%v, model says %v", after, i, arr[i], s.m[i]))
+		if arr[i] != s.t.m[i] {
+			s.fail(after, "wrong-value", fmt.Sprintf("after %s: ToArray()[%d]=%v, model says %v", after, i, arr[i], s.t.m[i]))
 			return false
 		}
 	}
 	// forward chain: exactly n nodes, then nil
 	e := f
 	for i := 0; i < n; i++ {
-		if e == nil || e.Value != s.m[i] {
-			s.fail("GetNext", "wrong-value", fmt.Sprintf("after %s: forward chain position %d is %v, model says %v", after, i, entVal(e), s.m[i]))
+		if e == nil || e.Value != s.t.m[i] {
+			s.fail("GetNext", "wrong-value", fmt.Sprintf("after %s: forward chain position %d is %v, model says %v", after, i, entVal(e), s.t.m[i]))
 			return false
 		}
-		e = s.l.GetNext(e)
+		e = s.t.l.GetNext(e)
 	}
 	if e != nil {
 		s.fail("GetNext", "wrong-size", fmt.Sprintf("after %s: forward chain continues past %d nodes", after, n))
@@ -120,8 +153,8 @@ func (s *linkedRun) verify(after string, full bool) bool {
 	// backward chain through the private prev pointers
 	e = la
 	for i := n - 1; i >= 0; i-- {
-		if e == nil || e.Value != s.m[i] {
-			s.fail(after, "wrong-value", fmt.Sprintf("after %s: backward chain position %d is %v, model says %v", after, i, entVal(e), s.m[i]))
+		if e == nil || e.Value != s.t.m[i] {
+			s.fail(after, "wrong-value", fmt.Sprintf("after %s: backward chain position %d is %v, model says %v", after, i, entVal(e), s.t.m[i]))
 			return false
 		}
 		e = prevOf(e)
@@ -130,12 +163,15 @@ func (s *linkedRun) verify(after string, full bool) bool {
 		s.fail(after, "wrong-size", fmt.Sprintf("after %s: backward chain continues past %d nodes", after, n))
 		return false
 	}
+	if s.noText {
+		return true
+	}
 	// textual form: the elements in order
 	parts := make([]string, n)
-	for i, v := range s.m {
+	for i, v := range s.t.m {
 		parts[i] = fmt.Sprint(v)
 	}
-	if ts := s.l.ToString(); ts != strings.Join(parts, ",") {
+	if ts := s.t.l.ToString(); ts != strings.Join(parts, ",") {
 		s.fail("ToString", "wrong-value", fmt.Sprintf("after %s: ToString()=%q, model says %q", after, ts, strings.Join(parts, ",")))
 		return false
 	}
@@ -149,14 +185,70 @@ func entVal(e *list.LinkedListEntity) interface{} {
 	return e.Value
 }
 
+// verifyAll: the target (fully when full), then every other list of the pool (chains in
+// both directions, ends, size, ToArray) and every array handed out by ToArray earlier.
+func (s *linkedRun) verifyAll(after string, full bool, blame string) bool {
+	t := s.t
+	if blame == "" {
+		if !s.verify(after, full) {
+			return false
+		}
+	}
+	ok := true
+	s.foreign, s.foreignKind, s.noText = after, "changed-other-list", true
+	if blame != "" {
+		s.foreign, s.foreignKind = blame, "aliased"
+	}
+	for _, p := range s.pool {
+		if p == t && blame == "" {
+			continue
+		}
+		s.t = p
+		s.c.Count("linked_other_lists_verified", 1)
+		if !s.verify(after, true) {
+			ok = false
+			break
+		}
+	}
+	s.t, s.foreign, s.foreignKind, s.noText = t, "", "", false
+	if !ok {
+		return false
+	}
+	for _, h := range s.helds {
+		s.c.Count("linked_held_arrays_verified", 1)
+		for j := range h.want {
+			if h.arr[j] != h.want[j] {
+				s.fail("ToArray", "aliased", fmt.Sprintf("after %s on K%d, an array returned earlier by K%d.ToArray changed: element %d is now %v, it was %v", after, t.id, h.from, j, h.arr[j], h.want[j]))
+				return false
+			}
+		}
+	}
+	return true
+}
+
+func opName(op string) string {
+	if j := strings.IndexByte(op, '('); j > 0 {
+		op = op[:j]
+	}
+	if j := strings.IndexByte(op, '.'); j >= 0 {
+		op = op[j+1:]
+	}
+	return op
+}
+
 func runLinked(c *vlib.Ctx, i int, r *vlib.Rand) {
-	s := &linkedRun{c: c, l: list.NewLinkedList()}
+	s := &linkedRun{c: c}
+	npool := r.Range(2, 3)
+	for j := 0; j < npool; j++ {
+		s.pool = append(s.pool, &lnk{id: j, l: list.NewLinkedList()})
+	}
+	s.t = s.pool[0]
 	nops := r.Range(1, 60)
 	if r.Chance(1, 4) {
 		nops = r.Range(60, 400)
 	}
 	next := 0
-	fresh := func() interface{} {
+	fresh := func() interface{} { // values are distinct across the lists of the pool
 		next++
 		if r.Chance(1, 5) {
 			return fmt.Sprintf("s%d", next)
@@ -169,31 +261,37 @@ func runLinked(c *vlib.Ctx, i int, r *vlib.Rand) {
 		if r.Chance(1, 25) {
 			drain = !drain
 		}
-		n := len(s.m)
+		s.t = s.pool[0]
+		if r.Chance(2, 5) {
+			s.t = s.pool[r.Intn(len(s.pool))]
+		}
+		id := s.t.id
+		n := len(s.t.m)
 		op := r.Intn(100)
 		if drain && op < 45 {
 			op = 45 + r.Intn(40)
 		}
 		var p interface{}
+		nlog := len(s.ops)
 		switch {
 		case op < 12:
 			v := fresh()
-			s.logf("AddFirst(%v)", v)
-			p = vlib.Catch(func() { s.l.AddFirst(v) })
-			s.m = append([]interface{}{v}, s.m...)
+			s.logf("K%d.AddFirst(%v)", id, v)
+			p = vlib.Catch(func() { s.t.l.AddFirst(v) })
+			s.t.m = append([]interface{}{v}, s.t.m...)
 			c.SetAdd("linked_ops", "AddFirst")
 		case op < 24:
 			v := fresh()
-			s.logf("AddLast(%v)", v)
-			p = vlib.Catch(func() { s.l.AddLast(v) })
-			s.m = append(s.m, v)
+			s.logf("K%d.AddLast(%v)", id, v)
+			p = vlib.Catch(func() { s.t.l.AddLast(v) })
+			s.t.m = append(s.t.m, v)
 			c.SetAdd("linked_ops", "AddLast")
 		case op < 30:
 			v := fresh()
-			s.logf("Add(%v)", v)
+			s.logf("K%d.Add(%v)", id, v)
 			var ok bool
-			p = vlib.Catch(func() { ok = s.l.Add(v) })
-			s.m = append(s.m, v)
+			p = vlib.Catch(func() { ok = s.t.l.Add(v) })
+			s.t.m = append(s.t.m, v)
 			if p == nil && !ok {
 				s.fail("Add", "wrong-value", "Add returned false")
 			}
@@ -211,10 +309,10 @@ func runLinked(c *vlib.Ctx, i int, r *vlib.Rand) {
 				break
 			}
 			v := fresh()
-			s.logf("PutBefore(%v, node@%d)", v, k)
+			s.logf("K%d.PutBefore(%v, node@%d)", id, v, k)
 			var nn *list.LinkedListEntity
-			p = vlib.Catch(func() { nn = s.l.PutBefore(v, node) })
-			s.m = append(s.m[:k], append([]interface{}{v}, s.m[k:]...)...)
+			p = vlib.Catch(func() { nn = s.t.l.PutBefore(v, node) })
+			s.t.m = append(s.t.m[:k:k], append([]interface{}{v}, s.t.m[k:]...)...)
 			if p == nil && (nn == nil || nn.Value != v) {
 				s.fail("PutBefore", "wrong-value", fmt.Sprintf("PutBefore returned %v, not the node holding %v", entVal(nn), v))
 			}
@@ -231,23 +329,23 @@ func runLinked(c *vlib.Ctx, i int, r *vlib.Rand) {
 			if node == nil {
 				break
 			}
-			s.logf("Remove(node@%d)", k)
+			s.logf("K%d.Remove(node@%d)", id, k)
 			var got interface{}
-			p = vlib.Catch(func() { got = s.l.Remove(node) })
-			want := s.m[k]
-			s.m = append(s.m[:k:k], s.m[k+1:]...)
+			p = vlib.Catch(func() { got = s.t.l.Remove(node) })
+			want := s.t.m[k]
+			s.t.m = append(s.t.m[:k:k], s.t.m[k+1:]...)
 			if p == nil && got != want {
 				s.fail("Remove", "wrong-value", fmt.Sprintf("Remove(node@%d) returned %v, the node held %v", k, got, want))
 			}
 			c.SetAdd("linked_ops", "Remove")
 		case op < 72:
-			s.logf("RemoveFirst()")
+			s.logf("K%d.RemoveFirst()", id)
 			var got interface{}
-			p = vlib.Catch(func() { got = s.l.RemoveFirst() })
+			p = vlib.Catch(func() { got = s.t.l.RemoveFirst() })
 			var want interface{}
 			if n > 0 {
-				want = s.m[0]
-				s.m = s.m[1:]
+				want = s.t.m[0]
+				s.t.m = s.t.m[1:]
 			} else {
 				c.Count("linked_remove_on_empty", 1)
 			}
@@ -256,13 +354,13 @@ func runLinked(c *vlib.Ctx, i int, r *vlib.Rand) {
 			}
 			c.SetAdd("linked_ops", "RemoveFirst")
 		case op < 84:
-			s.logf("RemoveLast()")
+			s.logf("K%d.RemoveLast()", id)
 			var got interface{}
-			p = vlib.Catch(func() { got = s.l.RemoveLast() })
+			p = vlib.Catch(func() { got = s.t.l.RemoveLast() })
 			var want interface{}
 			if n > 0 {
-				want = s.m[n-1]
-				s.m = s.m[:n-1]
+				want = s.t.m[n-1]
+				s.t.m = s.t.m[:n-1]
 			} else {
 				c.Count("linked_remove_on_empty", 1)
 			}
@@ -271,47 +369,66 @@ func runLinked(c *vlib.Ctx, i int, r *vlib.Rand) {
 			}
 			c.SetAdd("linked_ops", "RemoveLast")
 		case op < 87:
-			s.logf("Clear()")
-			p = vlib.Catch(func() { s.l.Clear() })
-			s.m = nil
+			s.logf("K%d.Clear()", id)
+			p = vlib.Catch(func() { s.t.l.Clear() })
+			s.t.m = nil
 			c.SetAdd("linked_ops", "Clear")
 		default:
-			s.logf("ToArray()")
+			s.logf("K%d.ToArray()", id)
 			if !s.verify("ToArray", true) {
 				s.dead = true
+				break
+			}
+			// the returned array stays under observation; writing to it changes no list
+			var arr []interface{}
+			p = vlib.Catch(func() { arr = s.t.l.ToArray() })
+			if p == nil && len(arr) > 0 {
+				h := &heldArr{from: id, arr: arr, want: append([]interface{}(nil), arr...)}
+				s.helds = append(s.helds, h)
+				if len(s.helds) > 4 {
+					s.helds = s.helds[1:]
+				}
+				if r.Bool() {
+					s.logf("scribble on the array returned by K%d.ToArray()", id)
+					for j := range arr {
+						arr[j] = "scribbled"
+						h.want[j] = arr[j]
+					}
+					if !s.verifyAll("writing to an array returned by ToArray", true, "ToArray") {
+						s.dead = true
+					}
+				}
+				c.Count("linked_held_arrays", 1)
 			}
 			c.SetAdd("linked_ops", "ToArray")
 		}
-		if s.dead || len(s.ops) == 0 {
+		if s.dead || len(s.ops) == nlog {
 			break
 		}
+		name := opName(s.ops[nlog])
 		if p != nil {
-			name := s.ops[len(s.ops)-1]
-			if j := strings.IndexByte(name, '('); j > 0 {
-				name = name[:j]
-			}
-			s.fail(name, "panic", fmt.Sprintf("%s panicked: %v", s.ops[len(s.ops)-1], p))
+			s.fail(name, "panic", fmt.Sprintf("%s panicked: %v", s.ops[nlog], p))
 			s.dead = true
 			break
 		}
-		name := s.ops[len(s.ops)-1]
-		if j := strings.IndexByte(name, '('); j > 0 {
-			name = name[:j]
-		}
-		if !s.dead && !s.verify(name, r.Chance(1, 3)) {
+		if !s.verifyAll(name, r.Chance(1, 3), "") {
 			s.dead = true
 		}
 		c.Count("linked_op_count", 1)
-		c.Max("max_linked_size", int64(len(s.m)))
+		c.Max("max_linked_size", int64(len(s.t.m)))
 	}
 	if !s.dead {
-		s.verify("end", true)
+		s.verifyAll("end", true, "")
 	}
 	c.Count("linked_programs", 1)
 	c.SetAdd("types_covered", "LinkedList")
 	c.Distinct(vlib.HashStr("linked" + fmt.Sprint(s.ops)))
 	if wantSample(c, "linked") && len(s.ops) >= 6 && len(s.ops) <= 16 {
 		tookSample("linked")
-		c.Sample(map[string]interface{}{"kind": "linked", "ops": s.ops, "final": fmt.Sprint(s.m)})
+		final := map[string]string{}
+		for _, p := range s.pool {
+			final[fmt.Sprintf("K%d", p.id)] = fmt.Sprint(p.m)
+		}
+		c.Sample(map[string]interface{}{"kind": "linked", "ops": s.ops, "final": final})
 	}
 }
